@@ -22,6 +22,8 @@ struct Def {
   unsigned dst;               // ANY or address
   std::vector<Bytes> parts;   // ID bytes beyond PBSB; >1 entry = chained
   bool core;                  // member of the reduced universe used for the largest subset size
+  int cond = 0;               // 0 unconditional, 1 = [isA] (code == 1), 2 = [isB] (code == 2)
+  bool condPool = false;      // unconditional partner of the conditional definitions in the availability pass
   bool passive() const { return kind == K_PASSIVE_READ || kind == K_PASSIVE_WRITE; }
   bool write() const { return kind == K_WRITE || kind == K_PASSIVE_WRITE; }
   bool chained() const { return parts.size() > 1; }
@@ -98,12 +100,32 @@ inline std::vector<Def> universe() {
   add(K_WRITE, ANY, 0xfe, {"0d0100", "0d0200"}, true);     // 37
   add(K_PASSIVE_READ, ANY, 0x08, {"0e01000200"}, false);   // 38
   add(K_WRITE, ANY, 0x08, {"0d01000203"}, false);          // 39
+  // conditional definitions (indices >= FIRST_CONDITIONAL): same direction/QQ/ZZ/PBSB/ID as others, differing
+  // in their condition only; explored in the availability pass together with the condPool partners
+  add(K_READ, ANY, 0x08, {"0d0100"}, false); u.back().cond = 1;               // 40 [isA] twin of 3 and 41
+  add(K_READ, ANY, 0x08, {"0d0100"}, false); u.back().cond = 2;               // 41 [isB]
+  add(K_READ, ANY, 0x08, {"0d01"}, false); u.back().cond = 1;                 // 42 [isA] shorter ID
+  add(K_WRITE, ANY, 0x08, {"0d0100"}, false); u.back().cond = 2;              // 43 [isB] write
+  add(K_PASSIVE_READ, ANY, 0x08, {"0d0100"}, false); u.back().cond = 2;       // 44 [isB] passive
+  add(K_READ, ANY, 0x08, {"0d0100", "0d0200"}, false); u.back().cond = 1;     // 45 [isA] chained
+  add(K_PASSIVE_READ, ANY, 0x08, {"0d0100"}, false); u.back().cond = 1;       // 46 [isA] passive twin of 44
+  for (int i : {0, 1, 2, 3, 4, 11, 12, 13, 19, 30, 31, 32}) u[i].condPool = true;
   return u;
 }
+
+static const int FIRST_CONDITIONAL = 40;
+// lines loaded before the definitions of a map that contains conditional definitions: the message the
+// conditions refer to (other PBSB than the universe) and the two conditions
+static const char* const COND_PRELUDE[] = {
+  "r,c,code,,,08,b5ff,43,,,UCH",
+  "*[isA],c,code,,,,1",
+  "*[isB],c,code,,,,2",
+};
 
 inline std::string defLine(const Def& d, size_t idx) {
   char b[64];
   std::string s;
+  if (d.cond) s += d.cond == 1 ? "[isA]" : "[isB]";
   s += d.kind == K_READ ? "r" : d.kind == K_WRITE ? "w" : d.kind == K_PASSIVE_READ ? "u" : "uw";
   snprintf(b, sizeof(b), ",c,n%02u,,", (unsigned)idx);
   s += b;
